@@ -6,7 +6,9 @@ use serde_json::Value;
 pub mod c01;
 pub mod c02;
 pub mod c03;
+pub mod c04;
 pub mod c08;
+pub mod c11;
 pub mod c16;
 pub mod c18;
 
@@ -24,7 +26,7 @@ pub struct PropInfo {
 }
 
 pub fn all() -> Vec<PropInfo> {
-    vec![c01::info(), c02::info(), c03::info(), c08::info(), c16::info(), c18::info()]
+    vec![c01::info(), c02::info(), c03::info(), c04::info(), c08::info(), c11::info(), c16::info(), c18::info()]
 }
 
 pub fn find(id: &str) -> Option<PropInfo> {
